@@ -5,6 +5,7 @@ package main
 // with the model's driver (coq/Model/Driver.v).
 
 import (
+	"bytes"
 	"bufio"
 	"context"
 	"encoding/hex"
@@ -86,6 +87,12 @@ type Exec struct {
 	stats      *Stats
 	oracleSeen map[string]bool
 	nilAbsent  bool // C20: pass absent (nil) byte fields instead of empty ones
+	argSlices  []argSlice // the byte-slice arguments handed to the handler of the current step, with a copy of their content
+}
+
+type argSlice struct {
+	key      string
+	now, was []byte
 }
 
 func NewExec(out *bufio.Writer, stats *Stats) *Exec {
@@ -121,10 +128,16 @@ func (x *Exec) oracle(msg, att []byte) {
 }
 
 func (x *Exec) bz(a Args, k string) []byte {
+	for _, s := range x.argSlices {
+		if s.key == k {
+			return s.now // the same request value when the step's call is executed a second time
+		}
+	}
 	b := a.hex(k)
 	if x.nilAbsent && len(b) == 0 {
 		return nil
 	}
+	x.argSlices = append(x.argSlices, argSlice{k, b, append([]byte(nil), b...)})
 	return b
 }
 
@@ -603,7 +616,21 @@ func (x *Exec) tx(line, n, ty string, a Args, discard bool) {
 		panic("script: unknown tx type " + ty)
 	}
 	x.emit("%s", line)
-	res := w.runMsg(a["plan"], discard, a["chain"] == "1", call)
+	x.argSlices = nil
+	res := w.runMsg(a["plan"], discard, a["chain"] == "1", call, func() bool {
+		for _, s := range x.argSlices {
+			if !bytes.Equal(s.now, s.was) {
+				return true
+			}
+		}
+		return false
+	})
+	// A handler that writes into the byte slices of its request changes what a second execution of the same decoded value
+	// sees.  When that happens the same value is executed once more from the same state: MUT reports how it differed.
+	if res.reexec != "" && res.reexec != "same" {
+		x.emit("I MUT %s %s", n, res.reexec)
+	}
+	x.argSlices = nil
 	x.nsteps++
 	if discard {
 		// only the outcome is observable; the chain must be exactly as before
